@@ -136,6 +136,30 @@ CHECKS = {
          "3 boolean fields, 3 programs, 2 depths, DFS/BFS; differential oracle; the attached-RETE-engine variant is not exercised; "
          "TLC and the harness projection are trusted.",
          "TLA+ history spec, complete TLC state-graph replayed on the real engine with a differential (fresh engine) oracle"),
+ "C01": ("model_checking",
+         "The documented semantics of the typed core is a TLA+ module (GrlExpr: values, the ten operators, condition trees, arithmetic with "
+         "precedence/associativity, assignments) whose sanity lemmas TLC checks; thousands of seeded programs with condition trees to depth "
+         "6 are run on the real engine and TLC interprets each recorded program, comparing firing, stored values and counters.",
+         "DESIGN.md §4 C01-C03",
+         "Programs are built programmatically (parser excluded, see C04); exact arithmetic in quarters, records leaving the exact range "
+         "are skipped and counted; generator exclusions are listed in the evidence assumptions; only recorded programs are decided.",
+         "TLA+ reference interpreter; TLC interpretation of programs recorded from the real engine (trace validation)"),
+ "C02": ("model_checking",
+         "ForwardEngine.tla is a reference interpreter of the documented loop (salience then insertion order, the six gates, activation "
+         "groups per pass, no-loop set, lock-on-active per activation, focus stack, ActivateAgendaGroup as one activation); TLC checks "
+         "hand-written programs against the documented outcomes and interprets thousands of recorded multi-rule programs with call "
+         "histories, comparing the firing sequence of every execute call.",
+         "DESIGN.md §4 C01-C03",
+         "As C01; histories of up to 6 calls on one engine; evaluation timestamps from a 6-value domain around the date windows.",
+         "TLA+ reference interpreter; TLC interpretation of programs recorded from the real engine (trace validation)"),
+ "C03": ("model_checking",
+         "The same interpreter computes cycle count, counters and the final facts; for recorded self- and mutually-triggering programs "
+         "with max_cycles up to 64 TLC checks equality with the engine and, on the computed run, cycle_count <= max_cycles, fired = |log| "
+         "and the fixpoint condition when the run stopped early; the recorder runs under a watchdog.",
+         "DESIGN.md §4 C01-C03",
+         "As C01; termination is observed on the recorded programs only (a non-returning execute is reported through the watchdog "
+         "without a minimised program).",
+         "TLA+ reference interpreter; TLC interpretation of programs recorded from the real engine (trace validation)"),
 }
 
 NOT_YET = "check not built yet in this round (see DESIGN.md §9 build order); no claim is made"
